@@ -308,9 +308,11 @@ class TreeGen:
         fan_left = self.max_fan if depth < self.max_depth else 0
         idx = 0
         last_plain_inc = False
-        for _ in range(n_chunks):
+        plan = [rng.random() for _ in range(n_chunks)]
+        if depth == 0 and not any(0.4 <= r < 0.85 for r in plan) and rng.random() < 0.9:
+            plan.insert(rng.randint(0, len(plan)), 0.5)          # the root script includes something, almost always
+        for r in plan:
             idx += 1
-            r = rng.random()
             if r < 0.4 or fan_left == 0 and r < 0.85:
                 kind = rng.choice('LS')
                 tag = f'{kind}{fid}.{idx}'
@@ -506,6 +508,8 @@ def spec_obs(case, impl):
     n_trace = len(impl['trace'] or '')
     budget_out = impl['outcome'].get('kind') == 'exceeded' and 0 < case['maxStatements'] < BIG
     outcome = None
+    steps = n_s = 0
+    cap = 20 * (n_impl + n_trace + 50)
     for ev in spec_events(case):
         if ev[0] == 'end':
             outcome = ev[1]
@@ -515,8 +519,11 @@ def spec_obs(case, impl):
         if ev[0] == 'exec':
             want_tags.append(ev[1])
         # enough to decide (cyclic trees go on for ever): the implementation stopped earlier than this
-        if len(want_events) > n_impl + 2 and sum(len(t) + 1 for t in want_tags if t.startswith('S')) > n_trace + 2:
+        steps += 1
+        if len(want_events) > n_impl + 2 and (n_s > n_trace + 2 or steps > cap):
             break
+        if ev[0] == 'exec' and ev[1].startswith('S'):
+            n_s += len(ev[1]) + 1
     _, trace = split_tags(want_tags)
     if budget_out:
         # the budget is C09's business: here only "what ran is an initial part of what the property prescribes"
@@ -552,6 +559,24 @@ def case_tags(case, impl):
     if 'function incFn' in case['root']['text'] or any('function incFn' in (f.get('text') or '') for f in case['files'].values()):
         tags.append('include-in-function')
     del depth
+
+    def nesting(items, self_loc, level):
+        best = level
+        if level >= 6:
+            return best
+        for it in items:
+            if it == 'ret':
+                break
+            if isinstance(it, dict) and 'inc' in it:
+                for url, system in it['inc']:
+                    f = case['files'].get(spec_location(case['systemPrefix'], self_loc, url, system))
+                    if f is not None and f['kind'] == 'text':
+                        best = max(best, nesting(f['items'], spec_location(case['systemPrefix'], self_loc, url, system), level + 1))
+                    else:
+                        best = max(best, level + 1)
+        return best
+    d = nesting(case['root']['items'], case['urlFn'], 0)
+    tags.append('depth:' + (str(d) if d < 6 else '6+'))
     return tags
 
 
